@@ -15,7 +15,8 @@ for d in sorted(os.listdir(S)):
     prop = meta.get('check_property') or meta['breaks_property']
     patch = os.path.join(p, 'patch.diff')
     if subprocess.run(['git', '-C', '/repo', 'apply', '--check', patch], capture_output=True).returncode != 0:
-        rows.append((d, prop, 'does not apply to the current tree', meta.get('status_on_current_tree', '')))
+        rows.append((d, prop, 'does not apply to the current tree',
+                     meta.get('status_on_current_tree', '') or meta.get('superseded_by', '')))
         continue
     subprocess.run(['git', '-C', '/repo', 'apply', patch], check=True)
     t = time.time()
@@ -42,7 +43,26 @@ for d in sorted(os.listdir(S)):
     meta['detected_by'] = f'{verdict} by ./check {prop} --tier quick ({"; ".join(how)})'
     json.dump(meta, open(os.path.join(p, 'meta.json'), 'w'), indent=1)
     print(d, prop, verdict, '; '.join(how)[:160], f'{time.time() - t:.0f}s', flush=True)
-if not only:
+if only:
+    # a partial run: rebuild the table from every meta.json (detected_by of the rows not run now is what the last run wrote)
+    done = {r[0]: r for r in rows}
+    rows = []
+    for d in sorted(os.listdir(S)):
+        p = os.path.join(S, d)
+        if not os.path.isdir(p):
+            continue
+        if d in done:
+            rows.append(done[d])
+            continue
+        meta = json.load(open(os.path.join(p, 'meta.json')))
+        prop = meta.get('check_property') or meta['breaks_property']
+        if subprocess.run(['git', '-C', '/repo', 'apply', '--check', os.path.join(p, 'patch.diff')], capture_output=True).returncode != 0:
+            rows.append((d, prop, 'does not apply to the current tree',
+                         meta.get('status_on_current_tree', '') or meta.get('superseded_by', '')))
+            continue
+        m = re.match(r'(DETECTED|missed \(exit 0\)|exit -?\d+) by \./check \S+ --tier quick \((.*)\)$', meta.get('detected_by') or '', re.S)
+        rows.append((d, prop, m.group(1) if m else 'not run', m.group(2) if m else ''))
+if True:
     with open(os.path.join(S, 'MATRIX.md'), 'w') as f:
         f.write('# Seeded changes vs. checks (written by tools/seed_matrix.py)\n\n| seeded change | check | result | how |\n|---|---|---|---|\n')
         for r in rows:
